@@ -63,6 +63,34 @@ type renameTable struct {
 	Notes      []string
 }
 
+// haveReference: a reference inventory was loaded for this run.
+var haveReference bool
+
+// refFuncNames: full names of the functions of the reference tree.
+var refFuncNames map[string]bool
+
+// isNewHelper: f is a module function that the reference tree does not have (and that is not a renamed one).
+func isNewHelper(f *ssa.Function) bool {
+	if !haveReference || f == nil || f.Parent() != nil || f.Synthetic != "" || len(f.Blocks) == 0 || !inModule(f) {
+		return false
+	}
+	if o := f.Origin(); o != nil {
+		f = o
+	}
+	if refFuncNames[f.String()] {
+		return false
+	}
+	_, renamed := curRenames.funcAlias[f]
+	return !renamed
+}
+
+func isNewHelperOrInside(f *ssa.Function) bool {
+	for f.Parent() != nil {
+		f = f.Parent()
+	}
+	return isNewHelper(f)
+}
+
 var curRenames = &renameTable{funcAlias: map[*ssa.Function]string{}, funcByRef: map[string]*ssa.Function{}, fieldAlias: map[*types.Var]string{}, typeNew2Old: map[string]string{}, typeOld2New: map[string]string{}}
 
 func isIdentChar(c byte) bool {
@@ -262,6 +290,7 @@ func jaccard(a, b []string) float64 {
 // loadRenames compares the analysed program with the reference inventory.
 func loadRenames(P *Program, path string) {
 	curRenames = &renameTable{funcAlias: map[*ssa.Function]string{}, funcByRef: map[string]*ssa.Function{}, fieldAlias: map[*types.Var]string{}, typeNew2Old: map[string]string{}, typeOld2New: map[string]string{}}
+	haveReference = false
 	b, err := os.ReadFile(path)
 	if err != nil {
 		return
@@ -272,6 +301,11 @@ func loadRenames(P *Program, path string) {
 	}
 	cur := buildInventory(P)
 	t := curRenames
+	haveReference = true
+	refFuncNames = map[string]bool{}
+	for k := range ref.Funcs {
+		refFuncNames[k] = true
+	}
 
 	// 1. types
 	var missT, newT []string
